@@ -89,6 +89,10 @@ fn gen(args: &Args, emit: &mut dyn FnMut(Value)) {
             emit(json!({"body": hex(b.as_bytes()), "filters": f.iter().map(|x| x.to_json()).collect::<Vec<_>>(), "headers": [], "scheds": scheds_json(&scheds), "shape": "multibyte-fixed"}));
         }
     }
+    // deterministic boundary families (long held tails, long buffers, many siblings): in EVERY run
+    for bc in boundary_cases() {
+        emit(json!({"body": hex(&bc.body), "filters": bc.filters.iter().map(|f| f.to_json()).collect::<Vec<_>>(), "headers": [], "scheds": scheds_json(&bc.scheds), "shape": bc.shape}));
+    }
     for _ in 0..args.n {
         let (body, shape) = gen_body(&mut rng);
         let filters = if rng.chance(1, 12) {
